@@ -702,7 +702,24 @@ func (e *env) jsonFamily(r *gen.R) {
 			sb.WriteString(`,"bbox":[0,0,1,1],"extra":{"a":[1,2,3]}`)
 		}
 		sb.WriteString("}")
-		e.tryJSON("grammar", []byte(sb.String()))
+		doc := sb.String()
+		if r.Chance(0.3) {
+			// insignificant whitespace between tokens (outside strings)
+			var ws strings.Builder
+			inStr := false
+			for i := 0; i < len(doc); i++ {
+				ch := doc[i]
+				if ch == '"' && (i == 0 || doc[i-1] != '\\') {
+					inStr = !inStr
+				}
+				ws.WriteByte(ch)
+				if !inStr && (ch == ',' || ch == ':' || ch == '[' || ch == '{') && r.Chance(0.5) {
+					ws.WriteString([]string{" ", "\n", "\t", "\r\n  "}[r.Intn(4)])
+				}
+			}
+			doc = ws.String()
+		}
+		e.tryJSON("grammar", []byte(doc))
 	}
 	// top-level non-objects
 	for _, d := range []string{"", "null", "[]", "1", `"Point"`, "{}", `{"type":"Point","coordinates":[1,2]} x`, "\xff\xfe", `[{"type":"Point","coordinates":[1,2]}]`} {
